@@ -201,7 +201,7 @@ def r5(ctx):
             good = sock[0] == "arg" and tab == ("load", ("fld", sock, fld))
             ctx.check(good, "C07.R5", "%s in %s" % (callee, fn.name), c.loc(), "purges (%s, %s)" % (vf.show(tab), vf.show(sock)),
                       key="C07.R5:%s:%s" % (callee, fn.name))
-    ctx.floor("C07.R5", n, 8)
+    ctx.floor("C07.R5", n, 4)     # two tables x at least two purge sites (giving the data up, failed roll-back); merged sites lower the count
 
 
 def check(ctx):
